@@ -46,11 +46,26 @@ End Merkle.
 
 Definition bytes_eqb : bytes -> bytes -> bool := list_eqb N.eqb.
 
-(** correspondence judge for the Merkle driver: (leaves, observed root or None for error) *)
-Definition judge_merkle (H : bytes -> bytes) (c : list bytes * option bytes) : verdict :=
-  let '(leaves, obs) := c in
-  match merkle_root H leaves, obs with
-  | Some r, Some o => if bytes_eqb r o then V_ok else V_mismatch 0
-  | None, _ => V_domain 0
-  | Some _, None => V_mismatch 1
-  end.
+(** Judge for the Merkle driver.  A case is a pair of leaf lists with the two observed roots
+    ([None] = the implementation returned an error).
+    Property predicate on the implementation's own answers, evaluated first: two different leaf
+    lists must have different roots; (2,1) = equal length, different lists, same root;
+    (2,2) = different lengths, same root.  Then the correspondence with [merkle_root]. *)
+Definition leaves_eqb : list bytes -> list bytes -> bool := list_eqb bytes_eqb.
+Definition judge_merkle (H : bytes -> bytes)
+           (c : (list bytes * option bytes) * (list bytes * option bytes)) : list verdict :=
+  let '((l1, o1), (l2, o2)) := c in
+  let pb :=
+    match o1, o2 with
+    | Some r1, Some r2 =>
+        if negb (leaves_eqb l1 l2) && bytes_eqb r1 r2
+        then V_propfalse (if Nat.eqb (List.length l1) (List.length l2) then 1 else 2)
+        else V_ok
+    | _, _ => V_propfalse 3            (* the root computation must be total *)
+    end in
+  let corr (l : list bytes) (o : option bytes) :=
+    match merkle_root H l, o with
+    | Some r, Some r' => bytes_eqb r r'
+    | _, _ => false
+    end in
+  [pb; if corr l1 o1 && corr l2 o2 then V_ok else V_mismatch 0].
